@@ -45,7 +45,19 @@ def lemma_as_hypothesis(it: Interp, lem: Lemma):
         it.ex.nofork -= 1
     if extra:
         t = z3.Implies(z3.And(*extra), t)
-    return z3.ForAll(consts, t)
+    pats = []
+    if lem.patterns is not None:
+        it.ex.nofork += 1
+        try:
+            pp = [a.arg for a in lem.patterns_node.args.args]
+            r = it.eval_clause(lem.patterns_node, dict(lem.patterns.__globals__), {p: env[p] for p in pp})
+        finally:
+            it.ex.nofork -= 1
+        del it.ex.st.pc[npc:]
+        terms = [it.term(x, it.ty_of(x)) if not isinstance(x, SV) else x.term for x in (r if isinstance(r, tuple) else (r,))]
+        terms = [t_.arg(0) if z3.is_not(t_) else t_ for t_ in terms]     # all(P) is represented as not any(not P)
+        pats = [z3.MultiPattern(*terms) if len(terms) > 1 else terms[0]]
+    return z3.ForAll(consts, t, patterns=pats) if pats else z3.ForAll(consts, t)
 
 
 def prove_lemma(name, timeout_ms=15000) -> TaskResult:
@@ -53,6 +65,10 @@ def prove_lemma(name, timeout_ms=15000) -> TaskResult:
     lem = LEMMAS[name]
     res = TaskResult('lemma ' + name)
     t0 = time.time()
+    res.lemmas_used = []
+    if lem.axiom:
+        res.axiom = (lem.fn.__doc__ or '').strip() or name
+        return res
     try:
         params = [a.arg for a in lem.node.args.args]
         tys = {p: parse_ty(lem.ann[p], ct) for p in params}
@@ -121,6 +137,7 @@ def prove_lemma(name, timeout_ms=15000) -> TaskResult:
         results = ex.explore(body)
         res.paths = len(results)
         res.obligations = it.obligations
+        res.lemmas_used = sorted(it.lemmas_used)
     except Untranslatable as e:
         res.status = 'untranslatable'
         res.message = str(e)
